@@ -1,7 +1,8 @@
-(* C03 - Certificates a node emits are valid, justified by accepted votes, and timely.
+(* C03 - Certificates a node emits are valid, justified by accepted votes, and timely (soundness: the first
+   theorems; timeliness / completeness: C03_certificate_held_once_threshold_reached, over all reachable pools).
    Only property theorems (closed by lemmas of Proofs/SlotStateProofs.v) and Print Assumptions. *)
 From Coq Require Import List NArith Bool.
-From AG Require Import Gen.Params Model.Pool Model.PoolSpec Proofs.SlotStateProofs.
+From AG Require Import Gen.Params Model.Pool Model.PoolSpec Proofs.SlotStateProofs Proofs.PoolProgressProofs.
 Import ListNotations.
 Open Scope N_scope.
 
@@ -38,7 +39,22 @@ Example C03_nonvacuous :
       (o_certs (snd (ss_add_vote e ss (mkVote 1 (KNotar 7) 2)))) = [([0; 1; 2], true); ([0; 1; 2], true)].
 Proof. vm_compute. reflexivity. Qed.
 
+(* TIMELINESS, for every pool reachable by any operation sequence: as soon as the stored votes of a class reach
+   the threshold the certificate of that class is held (whichever vote arrived last) - 60 % for notarization,
+   notar-fallback (notar + notar-fallback votes), skip (skip + skip-fallback) and finalization, 80 % for
+   fast-finalization *)
+Theorem C03_certificate_held_once_threshold_reached : forall e p s,
+  0 < total_stake e -> pool_reachable e p -> p_panicked p = false ->
+  let ss := p_ss p s in
+  (forall h, is_quorum e (stake_sum e (notar_voters e ss h)) = true -> ce_notar (ss_c ss) <> None) /\
+  (forall h, is_strong_quorum e (stake_sum e (notar_voters e ss h)) = true -> ce_ff (ss_c ss) <> None) /\
+  (forall h, is_quorum e (stake_sum e (nf_voters e ss h) + stake_sum e (notar_voters e ss h)) = true -> is_notar_fallback ss h = true) /\
+  (is_quorum e (stake_sum e (skip_voters e ss) + stake_sum e (sf_voters e ss)) = true -> ce_skip (ss_c ss) <> None) /\
+  (is_quorum e (stake_sum e (fin_voters e ss)) = true -> ce_fin (ss_c ss) <> None).
+Proof. exact threshold_then_cert. Qed.
+
 Print Assumptions C03_created_certs_valid.
 Print Assumptions C03_totals_are_stored_stake.
 Print Assumptions C03_pinned_count_before_store_refuted.
 Print Assumptions C03_nonvacuous.
+Print Assumptions C03_certificate_held_once_threshold_reached.
